@@ -156,7 +156,7 @@ FUNCTIONS.update({
         'prove(beq(payload, bcat(bi32(4 + g_bodylen), bi8(headers["__MessageType"]), bu24(tag), braw(g_body, g_bodylen))), "frame-is-length-type-tag-body")',
         'prove(MuxInv(self), "tags-awaiting-an-answer-are-the-leased-ones")']},
     ],
-    props=['C11', 'C13', 'C02'],
+    props=['C11', 'C13', 'C02', 'C08'],
   ),
 })
 
@@ -236,7 +236,7 @@ FUNCTIONS.update({
     ensures=['MuxInv(self)'] + _TAGS_UNCHANGED[:3],
     raises={'Exception': dict(ensures=['MuxInv(self)'] + _TAGS_UNCHANGED[:3])},
     modifies=['Props.tag', 'Props.has_tag', '$cls'], allocates=True,
-    props=['C11', 'C12', 'C01'],
+    props=['C11', 'C12', 'C01', 'C02'],
   ),
 })
 
